@@ -280,16 +280,20 @@ func TestWidthRule(t *testing.T) {
 }
 
 func TestSeac(t *testing.T) {
-	for _, code := range [][]byte{
+	// the accented character is not composed, but the width rule applies: 4 operands = no width
+	// (defaultWidthX), 5 operands = nominalWidthX + first operand
+	env := &Env{DefaultWidthX: 432, NominalWidthX: 100}
+	for i, code := range [][]byte{
 		cs(0, 0, 65, 96, endchar),
 		cs(500, 0, 0, 65, 96, endchar),
 	} {
-		_, err := Interpret(code, nil)
-		if !errors.Is(err, ErrSeac) {
-			t.Errorf("% x: got %v, want ErrSeac", code, err)
+		g, err := Interpret(code, env)
+		if err != nil || !g.Seac {
+			t.Errorf("% x: got %v, seac=%v", code, err, g != nil && g.Seac)
+			continue
 		}
-		if err == nil || !strings.Contains(err.Error(), "seac not supported") {
-			t.Errorf("% x: wrong error text %v", code, err)
+		if want := []float64{432, 600}[i]; g.Width != want {
+			t.Errorf("% x: width %v, want %v", code, g.Width, want)
 		}
 	}
 	// after the first stack clearing operator this is not seac, just garbage
